@@ -444,6 +444,13 @@ def run_unit(unit, progress):
         viol = []
         if not ok:
             viol.append(("differs-from-builtin", {"expected": repr(want)[:300], "observed": repr(got)[:300]}))
+        ncalls = next(call_ctr)
+        if ok and want[0] == "val" and helper in ("amap", "afilter", "afilterfalse", "asorted", "amax", "amin", "asift"):
+            # like the builtin, the helper asks the key / predicate once per element (a key that counts, samples or
+            # remembers what it has seen is an "asynchronous key/predicate" as well)
+            c["key_call_count_checks"] = c.get("key_call_count_checks", 0) + 1
+            if ncalls != len(data):
+                viol.append(("key-called-more-or-less-than-once-per-element", {"elements": len(data), "key_calls": ncalls}))
         if blocking and want[0] == "val" and len(data) >= 1 and helper not in ("badcall",):
             c["flush_count_checks"] = c.get("flush_count_checks", 0) + 1
             if hops > 1:
